@@ -2,8 +2,9 @@
    `exact <lemma>` and is followed by Print Assumptions.  Model: Model/Layout.v + Model/Gsub.v (after
    src/context.rs, src/gdef.rs, src/layout.rs lookup parts, src/gsub.rs); declarative side: Model/LayoutSpec.v,
    Model/GsubSpec.v; constants regenerated from the source into Gen/LayoutConsts.v. *)
-From AV Require Import Base.Prelude Gen.LayoutConsts Model.Layout Model.LayoutSpec Model.Gsub Model.GsubSpec
-  Proofs.LayoutProofs Proofs.GsubProofs Proofs.LigatureProofs Proofs.ContextProofs.
+From AV Require Import Base.Prelude Gen.LayoutConsts Model.Reader Model.Layout Model.LayoutSpec Model.Gsub Model.GsubSpec
+  Model.FeatureVariations Model.FeatureVariationsSpec
+  Proofs.LayoutProofs Proofs.GsubProofs Proofs.LigatureProofs Proofs.ContextProofs Proofs.FeatureVariationsProofs.
 From Coq Require Import Permutation.
 Open Scope Z_scope.
 
@@ -383,3 +384,320 @@ Example C04_window_underflow_witness :
   gsub_apply_lookup Debug (Some [mkLookup 0 None (LLigature [mkLigS (CovF1 [1]) [[mkLig 9 [2; 3]]]])])
     None 0 0 None [gl 1 97; gl 2 98; gl 3 99] 0 1 = Panic.
 Proof. vm_compute. reflexivity. Qed.
+
+
+(* ================================================================ (f) feature variations
+   Model/FeatureVariations.v (bytes, on the reader model) against Model/FeatureVariationsSpec.v.  `sc` is the
+   scope of the FeatureVariations table, `recs` its records (conditionSetOffset, featureTableSubstitutionOffset),
+   `t` the variation tuple (F2Dot14 raw values).  All statements are for record lists of any length, any bytes,
+   any tuple. *)
+
+(* (f.a) FeatureVariationsOwned::matches returns what the FIRST record that is not passed over yields: a record
+   is passed over iff its condition set does not match, or it matches and its substitution table has an
+   unsupported version; the chosen record yields its substitution (the NULL offset = NoSubstitution included) or,
+   if one of its tables is unreadable, that error.  `first_decisive` is the index of that record. *)
+Theorem C04_fv_first_matching_record : forall m sc t recs,
+  fv_matches m sc recs t = fv_matches_spec m sc recs t.
+Proof. exact fv_matches_first. Qed.
+Print Assumptions C04_fv_first_matching_record.
+
+(* ... and nothing after the chosen record is looked at: replacing the tail by anything changes nothing *)
+Theorem C04_fv_never_looks_past_the_chosen_record : forall m sc t recs i,
+  first_decisive m sc recs t = Some i ->
+  forall tail, fv_matches m sc (firstn (S i) recs ++ tail) t = fv_matches m sc recs t.
+Proof. exact fv_matches_ignores_later. Qed.
+Print Assumptions C04_fv_never_looks_past_the_chosen_record.
+
+(* the same in words, without the status vocabulary: `Ok (Some s)` iff some record i has a matching condition
+   set and the readable substitution s, and every earlier record either does not match or matches with an
+   unsupported substitution-table version *)
+Theorem C04_fv_chosen_record : forall m sc recs t s,
+  fv_matches m sc recs t = Ok (Some s) <->
+  exists i r, nth_error recs i = Some r /\
+    record_condition m sc r t = Ok true /\ record_substitution m sc (snd r) = Ok s /\
+    forall j r', (j < i)%nat -> nth_error recs j = Some r' ->
+      record_condition m sc r' t = Ok false \/
+      (record_condition m sc r' t = Ok true /\ record_substitution m sc (snd r') = Err BadVersion).
+Proof. exact fv_matches_some. Qed.
+Print Assumptions C04_fv_chosen_record.
+
+Theorem C04_fv_no_record_chosen : forall m sc recs t,
+  fv_matches m sc recs t = Ok None <-> forall r, In r recs -> passed_over (record_status m sc r t) = true.
+Proof. exact fv_matches_none. Qed.
+Print Assumptions C04_fv_no_record_chosen.
+
+(* a matching record with a NULL substitution offset ends the search with "no substitution", whatever follows
+   (the seeded regression returned Ok(None) here and went on to the later records) *)
+Theorem C04_fv_null_substitution_first : forall m sc cs rest t,
+  record_condition m sc (cs, 0) t = Ok true -> fv_matches m sc ((cs, 0) :: rest) t = Ok (Some FSNone).
+Proof. exact fv_matches_null_first. Qed.
+Print Assumptions C04_fv_null_substitution_first.
+
+(* (f.b) the records before the chosen one were passed over; the chosen one is not *)
+Theorem C04_fv_records_before_were_passed_over : forall m sc t recs i,
+  first_decisive m sc recs t = Some i ->
+  (i < length recs)%nat /\
+  (forall j r, (j < i)%nat -> nth_error recs j = Some r -> passed_over (record_status m sc r t) = true) /\
+  (forall r, nth_error recs i = Some r -> passed_over (record_status m sc r t) = false).
+Proof. exact first_decisive_before. Qed.
+Print Assumptions C04_fv_records_before_were_passed_over.
+
+Theorem C04_fv_passed_over_in_words : forall m sc r t,
+  passed_over (record_status m sc r t) = true <->
+  record_condition m sc r t = Ok false \/
+  (record_condition m sc r t = Ok true /\ record_substitution m sc (snd r) = Err BadVersion).
+Proof. exact status_passed_over_iff. Qed.
+Print Assumptions C04_fv_passed_over_in_words.
+
+(* the head of the search: skip on no-match and on an unsupported version, stop with the error on an unreadable
+   condition set (the only error a condition set can produce is Eof, never BadVersion) *)
+Theorem C04_fv_search_step : forall m sc r rest t,
+  (record_condition m sc r t = Ok false -> fv_matches m sc (r :: rest) t = fv_matches m sc rest t) /\
+  (record_condition m sc r t = Ok true -> record_substitution m sc (snd r) = Err BadVersion ->
+     fv_matches m sc (r :: rest) t = fv_matches m sc rest t) /\
+  (forall e, record_condition m sc r t = Err e -> e = Eof /\ fv_matches m sc (r :: rest) t = Err e).
+Proof.
+  exact (fun m sc r rest t => conj (fv_matches_nomatch_first m sc r rest t)
+     (conj (fv_matches_rejected_first m sc r rest t)
+        (fun e H => conj (record_condition_only_eof m sc r t e H) (fv_matches_unreadable_first m sc r rest t e H)))).
+Qed.
+Print Assumptions C04_fv_search_step.
+
+(* condition sets: offset 0 is the universal condition; a set is the conjunction of its conditions, an
+   unreadable condition table or one of an unknown format counts as false; format 1 is the closed range *)
+Theorem C04_fv_condition_set : forall m sc t,
+  (forall sub, record_condition m sc (0, sub) t = Ok true) /\
+  (forall offs b, conditions_all m sc offs t = Ok b -> b = forallb (condition_at_holds m sc t) offs) /\
+  (forall a mn mx, condition_matches (CondF1 a mn mx) t = true <-> exists v, tuple_get t a = Some v /\ mn <= v <= mx) /\
+  (forall a mn mx, mx < mn -> condition_matches (CondF1 a mn mx) t = false) /\
+  (forall a mn mx, len t <= a -> condition_matches (CondF1 a mn mx) t = false) /\
+  condition_matches CondUnknown t = false.
+Proof.
+  exact (fun m sc t => conj (fun sub => record_condition_null_offset m sc sub t)
+    (conj (conditions_all_forallb m sc t)
+      (conj (fun a mn mx => condition_matches_range a mn mx t)
+        (conj (fun a mn mx => condition_empty_range a mn mx t)
+          (conj (fun a mn mx => condition_axis_beyond_tuple a mn mx t) (condition_unknown_format t)))))).
+Qed.
+Print Assumptions C04_fv_condition_set.
+
+(* (f.c) without a tuple or without a FeatureVariations table the feature list is used unchanged *)
+Theorem C04_fv_unvaried_custom : forall m t fvt gd script lang feats tu n gs,
+  tu = None \/ fvt = None ->
+  gsub_apply_custom_v m t fvt gd script lang feats tu n gs = gsub_apply_custom m t gd script lang feats n gs.
+Proof. exact gsub_apply_custom_v_unvaried. Qed.
+Print Assumptions C04_fv_unvaried_custom.
+
+Theorem C04_fv_unvaried_mask : forall m t fvt gd script lang mask n gs,
+  gsub_apply_default_v m t fvt gd script lang mask None n gs = gsub_apply_default m t gd script lang mask n gs.
+Proof. exact gsub_apply_default_v_unvaried. Qed.
+Print Assumptions C04_fv_unvaried_mask.
+
+(* no record chosen, or the chosen record has a NULL substitution: the unvaried run (Mask: plus the rvrn pass
+   that `tuple.is_some()` alone switches on) *)
+Theorem C04_fv_no_substitution : forall m t fvt gd script lang tu n gs fv,
+  feature_variations m fvt tu = Ok fv -> fv = None \/ fv = Some FSNone ->
+  (forall feats, gsub_apply_custom_v m t fvt gd script lang feats tu n gs =
+                 gsub_apply_custom m t gd script lang feats n gs) /\
+  (forall mask, gsub_apply_default_v m t fvt gd script lang mask tu n gs =
+                gsub_apply_default_t m t gd script lang mask (match tu with Some _ => true | None => false end) n gs).
+Proof.
+  exact (fun m t fvt gd script lang tu n gs fv Hf Hn =>
+    conj (fun feats => gsub_apply_custom_v_no_subst m t fvt gd script lang feats tu n gs fv Hf Hn)
+         (fun mask => gsub_apply_default_v_no_subst m t fvt gd script lang mask tu n gs fv Hf Hn)).
+Qed.
+Print Assumptions C04_fv_no_substitution.
+
+(* (f.d) FeatureTableSubstitution::substitute.  On ANY record list the search is decided by the first record
+   whose feature index is >= the wanted one: used if equal, given up if larger (the early break). *)
+Theorem C04_fv_substitute_any_order : forall fi recs,
+  substitution_record recs fi =
+  match find (fun r => fi <=? fst r) recs with
+  | Some r => if fst r =? fi then Some r else None
+  | None => None
+  end.
+Proof. exact substitution_record_first_ge. Qed.
+Print Assumptions C04_fv_substitute_any_order.
+
+(* under the order the format prescribes (non-decreasing feature index) that is the first record with the
+   wanted index: the alternate feature table is returned for exactly the feature indices listed *)
+Theorem C04_fv_substitute_sorted : forall m sc recs fi, fi_sorted recs ->
+  fts_substitute m (FSTable sc recs) fi =
+  match find (fun r => fst r =? fi) recs with
+  | None => Ok None
+  | Some r => alternate_table m sc (snd r)
+  end.
+Proof. exact fts_substitute_sorted. Qed.
+Print Assumptions C04_fv_substitute_sorted.
+
+Theorem C04_fv_substitute_exactly_listed : forall fi recs,
+  (~ In fi (map fst recs) -> substitution_record recs fi = None) /\
+  (fi_sorted recs -> In fi (map fst recs) -> exists r, substitution_record recs fi = Some r /\ fst r = fi) /\
+  (forall r, substitution_record recs fi = Some r -> In r recs /\ fst r = fi).
+Proof.
+  exact (fun fi recs => conj (substitution_record_unlisted fi recs)
+    (conj (substitution_record_listed fi recs) (fun r => substitution_record_sound fi recs r))).
+Qed.
+Print Assumptions C04_fv_substitute_exactly_listed.
+
+(* unsorted records: a record that comes after one with a larger feature index is never found *)
+Theorem C04_fv_substitute_unsorted_shadowed : forall fi r0 rest,
+  fi < fst r0 -> substitution_record (r0 :: rest) fi = None.
+Proof. exact substitution_record_shadowed. Qed.
+Print Assumptions C04_fv_substitute_unsorted_shadowed.
+
+(* (f.e) end to end.  The substituted feature list: tags kept, the lookup list of feature k replaced by the
+   alternate table exactly when `substitute k` finds one. *)
+Theorem C04_fv_substituted_feature_list : forall m s fl fl', subst_features m s fl 0 = Ok fl' ->
+  length fl' = length fl /\
+  forall k tag li, nth_error fl k = Some (tag, li) ->
+    exists alt, fts_substitute m s (Z.of_nat k) = Ok alt /\
+                nth_error fl' k = Some (tag, match alt with Some a => a | None => li end).
+Proof. exact subst_features_spec. Qed.
+Print Assumptions C04_fv_substituted_feature_list.
+
+(* it exists for every table that is a byte string (shorter than 2^32: the table length field is a u32):
+   substitution never panics, so the two theorems below have no side condition on readable tables *)
+Theorem C04_fv_substituted_list_exists : forall m d fvt tu fv t,
+  table_ok d -> layout_read_fv m d = Ok fvt -> feature_variations m fvt tu = Ok fv ->
+  exists t', subst_layout m fv t = Ok t'.
+Proof. exact substituted_layout_exists. Qed.
+Print Assumptions C04_fv_substituted_list_exists.
+
+(* gsub::apply(Features::Custom) under a tuple = the unvaried run on the feature list substituted by the record
+   `matches` chose (f.a); an unreadable table fails the run once script and language system are found *)
+Theorem C04_fv_custom_end_to_end : forall m t t' fvt gd script lang feats tu n gs fv,
+  feature_variations m fvt tu = Ok fv -> subst_layout m fv t = Ok t' ->
+  gsub_apply_custom_v m t fvt gd script lang feats tu n gs = gsub_apply_custom m t' gd script lang feats n gs.
+Proof. exact gsub_apply_custom_v_subst. Qed.
+Print Assumptions C04_fv_custom_end_to_end.
+
+Theorem C04_fv_custom_unreadable : forall m t fvt gd script lang feats tu n gs e s ls,
+  feature_variations m fvt tu = Err e ->
+  find_script_or_default t script = Some s -> find_langsys_or_default s lang = Some ls ->
+  gsub_apply_custom_v m t fvt gd script lang feats tu n gs = Err e.
+Proof. exact gsub_apply_custom_v_error. Qed.
+Print Assumptions C04_fv_custom_unreadable.
+
+(* gsub::apply(Features::Mask): the rvrn lookups of the substituted list over the whole run first (when a tuple
+   is given), then the mask's lookups of the substituted list *)
+Theorem C04_fv_mask_end_to_end : forall m t t' fvt gd script lang mask tu n gs fv,
+  feature_variations m fvt tu = Ok fv -> subst_layout m fv t = Ok t' ->
+  gsub_apply_default_v m t fvt gd script lang mask tu n gs =
+  gsub_apply_default_t m t' gd script lang mask (match tu with Some _ => true | None => false end) n gs.
+Proof. exact gsub_apply_default_v_subst. Qed.
+Print Assumptions C04_fv_mask_end_to_end.
+
+Theorem C04_fv_mask_unreadable : forall m t fvt gd script lang mask tu n gs e,
+  feature_variations m fvt tu = Err e -> gsub_apply_default_v m t fvt gd script lang mask tu n gs = Err e.
+Proof. exact gsub_apply_default_v_error. Qed.
+Print Assumptions C04_fv_mask_unreadable.
+
+(* from the bytes of the table to the glyphs, in one statement: for every table that is a byte string whose
+   variations are readable, gsub::apply under the tuple is the unvaried run on the substituted feature list *)
+Theorem C04_fv_gsub_apply_under_tuple : forall m d fvt tu fv t,
+  table_ok d -> layout_read_fv m d = Ok fvt -> feature_variations m fvt tu = Ok fv ->
+  exists t', subst_layout m fv t = Ok t' /\
+    (forall gd script lang feats n gs,
+       gsub_apply_custom_v m t fvt gd script lang feats tu n gs = gsub_apply_custom m t' gd script lang feats n gs) /\
+    (forall gd script lang mask n gs,
+       gsub_apply_default_v m t fvt gd script lang mask tu n gs =
+       gsub_apply_default_t m t' gd script lang mask (match tu with Some _ => true | None => false end) n gs).
+Proof. exact gsub_apply_under_tuple. Qed.
+Print Assumptions C04_fv_gsub_apply_under_tuple.
+
+(* the ordering theorems (d) hold for the list built under a tuple, with the substituted features *)
+Theorem C04_fv_lookups_applied_in_list_order : forall m t t' ls fv feats rvrn lks,
+  subst_layout m fv t = Ok t' ->
+  build_lookups_custom_v m t ls fv feats None [] = Ok (rvrn, lks) ->
+  strictly_sorted (map fst lks) /\
+  (forall k, In k (map fst lks) <-> contributes t' ls feats k) /\
+  (forall tg, In tg (map snd lks) -> In tg (map fst feats)).
+Proof. exact fv_lookups_applied_in_list_order. Qed.
+Print Assumptions C04_fv_lookups_applied_in_list_order.
+
+Theorem C04_fv_mask_lookups_applied_in_list_order : forall m t t' script lang fv mask lks,
+  subst_layout m fv t = Ok t' ->
+  lookups_for_mask_v m t script lang fv mask = Ok lks ->
+  strictly_sorted (map fst lks) /\
+  (forall s ls, find_script_or_default t' script = Some s -> find_langsys_or_default s lang = Some ls ->
+     forall k, In k (map fst lks) <-> contributes_mask t' ls mask FEATURE_MASKS k).
+Proof. exact fv_mask_lookups_applied_in_list_order. Qed.
+Print Assumptions C04_fv_mask_lookups_applied_in_list_order.
+
+(* ---------------------------------------------------------------- non-vacuity (vm_compute on real bytes)
+   GSUB 1.1: header with featureVariationsOffset 14, then the FeatureVariations table:
+     record 0: wght in [0.75, 1.0] (12288..16384), NULL substitution
+     record 1: wght in [0.5, 1.0]  (8192..16384),  feature 0 ('liga') -> lookup 1
+   liga -> lookup 0 (glyph 5 -> 6) in the feature list; lookup 1 maps 5 -> 15. *)
+(* the NULL-substitution-first case of the seeded regression: at wght = 0.75 record 0 matches and says "no
+   substitution"; record 1 (which also matches) must not be applied: glyph 6, not 15 *)
+Example C04_fv_null_substitution_first_example :
+  (fvt <- layout_read_fv Debug fv_demo_bytes ;; feature_variations Debug fvt (Some [12288])) = Ok (Some FSNone) /\
+  fv_demo_run (Some [12288]) = Ok [6] /\
+  (* just below record 0's range: record 1 is the first match and swaps liga to lookup 1 *)
+  fv_demo_run (Some [12287]) = Ok [15] /\
+  fv_demo_run (Some [8192]) = Ok [15] /\
+  (* below both ranges, beyond the upper boundary of none (1.0 is inside), no tuple, empty tuple *)
+  fv_demo_run (Some [8191]) = Ok [6] /\
+  fv_demo_run (Some [16384]) = Ok [6] /\
+  fv_demo_run None = Ok [6] /\
+  fv_demo_run (Some []) = Ok [6].
+Proof. vm_compute. repeat split; reflexivity. Qed.
+
+(* the statuses of the two demo records at 0.75 and at 0.6, and the index `first_decisive` computes *)
+Example C04_fv_first_decisive_example :
+  let sc := {| base := 14; data := skipn 14 fv_demo_bytes |} in
+  let recs := [(24, 0); (38, 52)] in
+  first_decisive Debug sc recs [12288] = Some 0%nat /\
+  first_decisive Debug sc recs [9830] = Some 1%nat /\
+  first_decisive Debug sc recs [0] = None /\
+  record_status Debug sc (24, 0) [9830] = RSNoMatch /\
+  table_ok fv_demo_bytes.
+Proof. vm_compute. repeat split; reflexivity. Qed.
+
+(* an unsupported substitution-table version is rejected and the NEXT record is used; an unreadable condition
+   set (offset beyond the data) fails the match; a condition on axis 1 never holds for a one-axis tuple; an
+   empty range (min > max) never holds *)
+Example C04_fv_rejected_and_unreadable_example :
+  let fts major := [0; major; 0;0; 0;1;  0;0; 0;0;0;12;  0;0; 0;1; 0;1] in
+  let cond axis mn mx := [0;1; 0;0;0;6;  0;1; 0;axis; mn;0; mx;0] in
+  let tbl recs tail := {| base := 0; data := [0;1; 0;0; 0;0;0;2] ++ recs ++ tail |} in
+  (* record 0: universal, substitution version 2; record 1: universal, version 1 *)
+  (exists sc recs', fv_matches Debug (tbl [0;0;0;0; 0;0;0;24;  0;0;0;0; 0;0;0;42] (fts 2 ++ fts 1))
+                      [(0, 24); (0, 42)] [0] = Ok (Some (FSTable sc recs')) /\ base sc = 42) /\
+  fv_matches Debug (tbl [0;0;255;0; 0;0;0;0;  0;0;0;0; 0;0;0;0] []) [(65280, 0); (0, 0)] [0] = Err Eof /\
+  fv_matches Debug (tbl [0;0;0;24; 0;0;0;0;  0;0;0;0; 0;0;0;38] (cond 1 192 64 ++ fts 1)) [(24, 0); (0, 38)] [0]
+    = fv_matches Debug (tbl [0;0;0;24; 0;0;0;0;  0;0;0;0; 0;0;0;38] (cond 1 192 64 ++ fts 1)) [(0, 38)] [0] /\
+  condition_matches (CondF1 0 100 (-100)) [0] = false.
+Proof. vm_compute. repeat split; try reflexivity. eexists; eexists; split; reflexivity. Qed.
+
+(* substitute on sorted and unsorted records: with (5, _) in front, the record for feature 2 is never reached *)
+Example C04_fv_substitute_example :
+  substitution_record [(1, 10); (2, 20); (5, 50)] 2 = Some (2, 20) /\
+  substitution_record [(1, 10); (2, 20); (5, 50)] 3 = None /\
+  substitution_record [(5, 50); (2, 20)] 2 = None /\
+  substitution_record [(2, 20); (2, 21)] 2 = Some (2, 20) /\
+  fi_sorted [(1, 10); (2, 20); (5, 50)] /\ ~ fi_sorted [(5, 50); (2, 20)].
+Proof.
+  repeat split; try reflexivity; cbn; try (intros ? [<-|[<-|[]]]; cbn; lia); try (intros ? [<-|[]]; cbn; lia); try (intros ? []).
+  intros [H _]. specialize (H (2, 20) (or_introl eq_refl)). cbn in H. lia.
+Qed.
+
+(* Features::Mask under a tuple: the rvrn feature's lookup runs first even when no record matches; with the
+   substitution of record 1 liga runs lookup 1 *)
+Example C04_fv_mask_example :
+  let liga := 1818847073 in
+  let t := mkLayout (Some [(TAG_DFLT, mkScript (Some (mkLangSys [0; 1])) [])])
+                    (Some [(liga, [0]); (TAG_RVRN, [2])])
+                    (Some [mkLookup 0 None (LSingle [SingleF1 (CovF1 [5]) 1]);
+                           mkLookup 0 None (LSingle [SingleF1 (CovF1 [5]) 10]);
+                           mkLookup 0 None (LSingle [SingleF1 (CovF1 [7]) (-2)])]) in
+  let run tu := fvt <- layout_read_fv Debug fv_demo_bytes ;;
+                gs <- gsub_apply_default_v Debug t fvt None TAG_DFLT None (Z.shiftl 1 22) tu 100
+                        [mkGlyph 7 [97] 0 (Some 97) false false false 0] ;; Ok (ids gs) in
+  run None = Ok [7] /\            (* no tuple: rvrn does not run, liga's lookup 0 does not cover 7 *)
+  run (Some [0]) = Ok [6] /\      (* rvrn: 7 -> 5, then liga -> lookup 0: 5 -> 6 *)
+  run (Some [12288]) = Ok [6] /\  (* record 0: NULL substitution *)
+  run (Some [9830]) = Ok [15].    (* record 1: liga -> lookup 1: 5 -> 15 *)
+Proof. vm_compute. repeat split; reflexivity. Qed.
